@@ -10,14 +10,17 @@ variable {Val : Type} [DecidableEq Val]
 
 /-- the invariant holds initially … -/
 theorem synced_init (w : Wiring) : Synced w ({} : FlatSt Val) := by
-  sorry
+  exact Sync.synced_empty w
 
 /-- … and is preserved by every complete tick, whatever the roots and the answer order. -/
 theorem synced_tick (w : Wiring) (hw : RouterOK w) (hacyc : w.Acyclic) (dev : DevFn Val)
     (st st' : FlatSt Val) (t : SimTime) (roots : List Comp)
     (hroots : ∀ c ∈ extent w roots, (w.ups c).isSome)
     (hs : Synced w st) (hrun : TickRun w dev st t roots st') : Synced w st' := by
-  sorry
+  have _ := hacyc -- not needed: the tick equations of C02 hold for every reachable state
+  have _ := hroots -- not needed: a complete run is given
+  obtain ⟨s, hr, hf, rfl⟩ := hrun
+  exact Sync.synced_afterTick hw hr hf hs
 
 /-- **C03.** Every observation made in a tick — the inputs a device is given when it is
 updated — holds, for each input port wired to an upstream output, the most recent value ever
@@ -33,13 +36,25 @@ theorem inputs_latest (w : Wiring) (hw : RouterOK w) (hacyc : w.Acyclic) (dev : 
     t' = t ∧
     (∀ a p q, w.Conn a p c q → alookup given q = alookup st'.reported (a, p)) ∧
     (∀ q v, alookup given q = some v → ∃ a p, w.Conn a p c q) := by
-  sorry
+  have _ := hacyc -- not needed: the tick equations of C02 hold for every reachable state
+  have _ := hroots -- not needed: a complete run is given
+  obtain ⟨s, hr, hf, rfl⟩ := hrun
+  have hcount := fun c => (hr.inv.pre.count c).1
+  rcases Sync.obs_afterTick dev hcount st hobs with h | ⟨c', t'', ins, hm, he⟩
+  · exact absurd h hnew
+  · cases he
+    have hd := dispatchOf_eq_of_mem (d := .input c t' ins) (hcount c) hm
+    obtain ⟨rfl, _, _⟩ := Sync.input_facts hw hr hd
+    exact ⟨rfl, fun a p q hc => Sync.wire_input hw hr hs hc hd,
+      fun q v h => Sync.given_keys hw hr hs hd h⟩
 
 /-- over a whole run: the invariant holds after every tick of every run. -/
 theorem synced_run (w : Wiring) (hw : RouterOK w) (hacyc : w.Acyclic) (devs : DevSeq Val)
     (hcomp : ∀ c ∈ w.components, (w.ups c).isSome)
     (t0 : SimTime) (n : Nat) (st : FlatSt Val) (times : List SimTime)
     (hrun : FlatRun w devs t0 n st times) : Synced w st := by
-  sorry
+  have _ := hacyc -- not needed, see `synced_tick`
+  have _ := hcomp -- not needed: holds for every wiring (`Wiring.ups_isSome_iff'`)
+  exact (Sync.run_inv hw hrun).1
 
 end Tickit
